@@ -123,10 +123,14 @@ Print Assumptions C04_b64_shift.
 (* ---- receive(): Multi container walk over bytes, nested containers, fragment dispatch -------
    the input is the stream form of a Packet; receive(s, l, &p) on the Session of device `self`.
    K = 2 (a tag count of up to 65535 is paid for by at most 32768 tags read), C = two unpaid tag
-   slices (the top packet's, and the one sub-packet on which the walk fails). *)
+   slices (the top packet's, and the one sub-packet on which the walk fails).
+   `clob`: sub-packets are windows into the container's buffer and a completing fragment group is
+   appended in place, so the not yet decoded rest of a container can change under the walk; the
+   statements hold for EVERY such change that keeps bytes bytes and the length (clob_ok).  The
+   correspondence run evaluates the instance no_clob (receive_bytes = receive_bytes_c no_clob). *)
 Theorem C04_receive_containers :
-  forall self bs, bytes_ok bs = true ->
-  outcome (receive_bytes self bs) <> Panic /\ alloc (receive_bytes self bs) <= 2 * len bs + 2 * (4 * 65535).
+  forall clob, clob_ok clob -> forall self bs, bytes_ok bs = true ->
+  outcome (receive_bytes_c clob self bs) <> Panic /\ alloc (receive_bytes_c clob self bs) <= 2 * len bs + 2 * (4 * 65535).
 Proof. exact receive_bytes_spec. Qed.
 Print Assumptions C04_receive_containers.
 
@@ -136,18 +140,22 @@ Print Assumptions C04_receive_containers.
    (cluster.add counts empty parts, cluster.done indexes data[0] only behind its length check);
    no step panics and the model's fuel is never exhausted.  st_wf [] holds (st_wf_nil). *)
 Theorem C04_fragment_sequences_no_panic :
-  forall self ps, Forall (fun p => bytes_ok (p_body p) = true) ps ->
-  outcome (recv_packets self [] ps) <> Panic /\ outcome (recv_packets self [] ps) <> Err EFuel.
-Proof. intros self ps H. exact (conj (recv_packets_no_panic self ps [] st_wf_nil H) (recv_packets_fuel self ps [] st_wf_nil H)). Qed.
+  forall clob, clob_ok clob -> forall self ps, Forall (fun p => bytes_ok (p_body p) = true) ps ->
+  outcome (recv_packets clob self [] ps) <> Panic /\ outcome (recv_packets clob self [] ps) <> Err EFuel.
+Proof.
+  intros clob Hc self ps H.
+  exact (conj (recv_packets_no_panic clob Hc self ps [] st_wf_nil H) (recv_packets_fuel clob Hc self ps [] st_wf_nil H)).
+Qed.
 Print Assumptions C04_fragment_sequences_no_panic.
 
 (* the same with the Packets given as bytes (stream forms one behind the other) *)
 Theorem C04_receive_sequence :
-  forall self bs, bytes_ok bs = true ->
-  outcome (receive_seq self bs) <> Panic /\ alloc (receive_seq self bs) <= 2 * len bs + 4 * 65535 /\
-  outcome (receive_seq self bs) <> Err EFuel.
+  forall clob, clob_ok clob -> forall self bs, bytes_ok bs = true ->
+  outcome (receive_seq_c clob self bs) <> Panic /\ alloc (receive_seq_c clob self bs) <= 2 * len bs + 4 * 65535 /\
+  outcome (receive_seq_c clob self bs) <> Err EFuel.
 Proof.
-  intros self bs H. exact (conj (proj1 (receive_seq_spec self bs H)) (conj (proj2 (receive_seq_spec self bs H)) (receive_seq_fuel self bs H))).
+  intros clob Hc self bs H.
+  exact (conj (proj1 (receive_seq_spec clob Hc self bs H)) (conj (proj2 (receive_seq_spec clob Hc self bs H)) (receive_seq_fuel clob Hc self bs H))).
 Qed.
 Print Assumptions C04_receive_sequence.
 
@@ -169,7 +177,7 @@ Theorem C04_loops_terminate :
   outcome (dns_read true bs) <> Err EFuel /\
   outcome (strlist_flat true bs) <> Err EFuel /\
   outcome (receive_bytes self bs) <> Err EFuel.
-Proof. intros self bs H. exact (conj (dns_read_fuel bs H) (conj (strlist_flat_fuel bs) (receive_bytes_fuel self bs H))). Qed.
+Proof. intros self bs H. exact (conj (dns_read_fuel bs H) (conj (strlist_flat_fuel bs) (receive_bytes_fuel no_clob no_clob_ok self bs H))). Qed.
 Print Assumptions C04_loops_terminate.
 
 Theorem C04_counted_list_terminates :
